@@ -10,8 +10,11 @@ import time
 import traceback
 
 VERIF = os.path.dirname(os.path.dirname(os.path.abspath(__file__)))
-EVIDENCE_DIR = os.path.join(VERIF, "evidence")
-REPLAY_DIR = os.path.join(VERIF, "replays")
+# VERIF_OUT redirects evidence and replays (used when a check is pointed at a scratch
+# worktree with VERIF_REPO during mutation testing, so /verif/evidence is not clobbered)
+_OUT = os.environ.get("VERIF_OUT") or VERIF
+EVIDENCE_DIR = os.path.join(_OUT, "evidence")
+REPLAY_DIR = os.path.join(_OUT, "replays")
 KNOWN_FINDINGS = os.path.join(VERIF, "known_findings.json")
 EVIDENCE_SCHEMA = "/root/.vp/EVIDENCE.schema.json"
 EVIDENCE_SCHEMA_LOCAL = os.path.join(VERIF, "mc", "EVIDENCE.schema.json")
@@ -276,7 +279,7 @@ def pmap(ctx, modname, funcname, items, builddir, procs=None, env=None, chunks=1
     items = list(items)
     if not items:
         return
-    procs = procs or int(os.environ.get("VERIF_PROCS", "0")) or min(16, os.cpu_count() or 1)
+    procs = int(os.environ.get("VERIF_PROCS", "0")) or procs or min(16, os.cpu_count() or 1)
     procs = max(1, min(procs, len(items)))
     args = [(modname, funcname, ctx.prop, ctx.tier, ctx.seed, ctx.level, it) for it in items]
     if procs == 1:
